@@ -1,5 +1,6 @@
 """C16 — chunkings tile the sample axis exactly once (DESIGN.md §5 C16)."""
 import itertools
+from fractions import Fraction
 import numpy as np
 from . import common as C
 from .prop_c01 import _fname
@@ -13,13 +14,31 @@ RULE = ('exhaustive (n, chunk, overlap<chunk) and (n, k, size) grids; all multi-
         'durations x thread counts x cache on/off; then random larger triples. non-trivial = '
         'more than one chunk/interval/excerpt produced (counted per distinct case)')
 ASSUMPTIONS = [
-    'chunk_size = int(round(600*sample_rate)) is computed by the real reader; the harness picks '
-    'sample_rate = cs/600 and discards cs for which that float expression does not give cs back; further cases use '
-    'sample rates whose 600 s chunk is a fractional number of samples, with the chunk length taken as that '
-    'number rounded to the nearest sample',
-    'mtscomp chunk table (reader.chunk_bounds) and its thread pool are outside the model; the '
-    'model takes the chunk table as input',
+    'chunk length of flat/array/npy readers: the Lean model computes int(round(600*rate)) over Rat (round half to even) '
+    'from the EXACT rational value of the float sample rate handed to the real reader; the only float operation of '
+    'the real code is the product 600.0*rate, so the generator keeps to rates for which that product is exact '
+    '(dyadic rates, incl. exact .5 ties) or whose exact product is further than 2^-30 from a tie (the correctly '
+    'rounded product then rounds to the same integer)',
+    'compressed readers: the chunk table is read from the real .ch file and judged by the Lean predicate against '
+    'the chunk length int(np.round(chunk_duration*rate)) the model computes from the exact rationals, and compared '
+    'with the model of mtscomp\'s table (same domain restriction on the product); mtscomp\'s codec and thread pool '
+    'are outside the model',
 ]
+
+
+def _rat(x):
+    """exact rational value of a float / int, as the driver reads it"""
+    f = Fraction(x)
+    return [f.numerator, f.denominator]
+
+
+def _product_ok(a, b):
+    """is the float product a*b inside the exact-arithmetic domain: exact, or so far from a .5 tie that correct
+    rounding of the product cannot change the nearest integer"""
+    x = Fraction(a) * Fraction(b)
+    if Fraction(float(a) * float(b)) == x:
+        return True
+    return abs((x - (x.numerator // x.denominator)) - Fraction(1, 2)) > Fraction(1, 2 ** 30)
 
 
 def _imp():
@@ -49,7 +68,7 @@ def impl(case):
     if op == 'get_chunk_bounds':
         return [int(x) for x in T._get_chunk_bounds(case['sizes'], case['cs'])]
     if op == 'reader_flat':
-        sr = case.get('sr') or case['cs'] / 600.
+        sr = case['sr']
         with C.scratch_dir() as d:
             paths, blocks, row0 = [], [], 0
             for i, s in enumerate(case['sizes']):
@@ -76,8 +95,19 @@ def impl(case):
             del r
         return out
     if op == 'reader_array':
-        sr = case.get('sr') or case['cs'] / 600.
+        sr = case['sr']
         arr = np.zeros((case['sizes'][0], 2), dtype=np.int16)
+        if case.get('via') == 'npy':
+            # the same array through a .npy file (NpyEphysReader)
+            with C.scratch_dir() as d:
+                np.save(d / 'a.npy', arr)
+                r = T.get_ephys_reader(d / 'a.npy', sample_rate=sr)
+                out = dict(bounds=[int(x) for x in r.chunk_bounds],
+                           part_bounds=[int(x) for x in r.part_bounds],
+                           iter=[[int(a), int(b)] for a, b in r.iter_chunks()],
+                           n_samples=int(r.n_samples))
+                del r
+            return out
         r = T.get_ephys_reader(arr, sample_rate=sr)
         return dict(bounds=[int(x) for x in r.chunk_bounds],
                     part_bounds=[int(x) for x in r.part_bounds],
@@ -116,12 +146,22 @@ def model_query(case, impl_res):
     q = {k: v for k, v in case.items() if not k.startswith('_')}
     ok = impl_res.get('ok')
     op = case['op']
+    if op in ('reader_flat', 'reader_array'):
+        # the model gets the exact value of the float rate, never a chunk length computed in Python
+        q = dict(p=PID, op='get_chunk_bounds', sizes=case['sizes'], rate=_rat(case['sr']))
+        if ok is not None:
+            q['impl'] = ok['bounds']
+        return q
+    if op == 'reader_cbin':
+        q = dict(p=PID, op='iter_mts', n=case['n'], cd=_rat(case['cd']), rate=_rat(case['sr']))
+        if ok is None:
+            q.update(bounds=[0, case['n']], bs=case['bs'])
+        else:
+            # batch size: what the real mtscomp reader reports (it is what the real iterator uses)
+            q.update(bounds=ok['bounds'], impl=ok['iter'], bs=ok['bs'])
+        return q
     if ok is None:
-        if op in ('reader_flat', 'reader_array'):
-            q['op'] = 'get_chunk_bounds'
-        elif op == 'reader_cbin':
-            q.update(op='iter_mts', bounds=[0, case['n']])
-        elif op == 'chunk_data':
+        if op == 'chunk_data':
             q['op'] = 'chunk_bounds'
         return q
     if op == 'chunk_bounds':
@@ -130,10 +170,6 @@ def model_query(case, impl_res):
         q.update(op='chunk_bounds', impl=ok['bounds'])
     elif op in ('excerpts', 'get_chunk_bounds'):
         q['impl'] = ok
-    elif op in ('reader_flat', 'reader_array'):
-        q.update(op='get_chunk_bounds', impl=ok['bounds'])
-    elif op == 'reader_cbin':
-        q.update(op='iter_mts', bounds=ok['bounds'], impl=ok['iter'])
     return q
 
 
@@ -141,11 +177,21 @@ def judge(case, impl_res, ans):
     if 'err' in ans:
         return 'MACHINERY: driver error %s' % ans['err']
     m = ans['ok']
+    op = case['op']
+    if op in ('reader_flat', 'reader_array'):
+        if not _product_ok(600.0, case['sr']):
+            return 'MACHINERY: generator left the exact-arithmetic domain of the chunk length (rate %r)' % case['sr']
+        if m.get('model') is None:
+            # a rate of at most 1/1200 Hz: the model constructor refuses (assert chunk_size > 0); outside the
+            # property's quantifier whatever the real code does
+            return None
+    if op == 'reader_cbin' and not _product_ok(case['cd'], case['sr']):
+        return 'MACHINERY: generator left the exact-arithmetic domain of the chunk length (cd %r, rate %r)' % (
+            case['cd'], case['sr'])
     if 'raised' in impl_res:
         return 'SPEC: real code raised %s (%s) at %s on an in-domain input' % (
             impl_res['raised'], impl_res['msg'], impl_res['where'])
     ok = impl_res['ok']
-    op = case['op']
     if m.get('model_spec') is False:
         return 'MACHINERY: model output rejected by its own spec (contradicts the theorem)'
     if op == 'get_excerpts':
@@ -190,20 +236,27 @@ def judge(case, impl_res, ans):
             return 'SPEC: reader[i0:i1] over iter_chunks, stacked, differs from the recording'
         if ok.get('iter_second_pass_same') is False:
             return 'SPEC: a second pass of iter_chunks over the same reader differs from the first'
-        if ok['bounds'] != m['model'] or ok['iter'] != m['iter'] or \
-                (op == 'reader_flat' and ok['part_bounds'] != m['part_bounds']):
-            return 'CORR: reader bounds/iterator differ from the model'
+        if ok['bounds'] != m['model'] or ok['iter'] != m['iter'] or ok['part_bounds'] != m['part_bounds']:
+            return 'CORR: reader bounds/iterator/part bounds differ from the model (chunk length of the model: %s)' % m.get('cs')
         return None
     if op == 'reader_cbin':
-        b = ok['bounds']
-        if b[0] != 0 or b[-1] != case['n'] or any(y <= x for x, y in zip(b, b[1:])):
-            return 'SPEC: compressed reader chunk bounds do not increase strictly from 0 to n'
+        if ok['n_samples'] != case['n']:
+            return 'SPEC: n_samples of the compressed reader differs from the length of the recording'
+        if ok['bs'] != case['bs']:
+            return 'MACHINERY: mtscomp reader opened with n_threads=%s reports batch_size %s' % (case['bs'], ok['bs'])
+        if 'table_spec' not in m:
+            return 'MACHINERY: no positive chunk length for cd=%r rate=%r' % (case['cd'], case['sr'])
+        if m['table_spec'] is False:
+            return ('SPEC: compressed reader chunk bounds do not increase strictly from 0 to n or are further apart '
+                    'than the chunk length (%s samples)' % m['table_cs'])
         if ok['iter'] != m['model']:
             return 'CORR: compressed iter_chunks differs from the model'
         for k, it in enumerate(ok.get('again', [])):
             if it != ok['iter']:
                 return ('SPEC: pass %d over the same compressed reader (cache=%s after %s) does not tile the recording '
                         'like the first pass: %s' % (k + 2, case['again'][k], [case['cache']] + case['again'][:k], str(it)[:120]))
+        if ok['bounds'] != m['table']:
+            return 'CORR: chunk table of the compressed file differs from the model of the table'
         return None
     if ok != m['model']:
         return 'CORR: output differs from the model (predicate holds on this input)'
@@ -218,6 +271,8 @@ def nontrivial(case):
         return case['n'] > case['size'] and case['k'] >= 2
     if op == 'reader_cbin':
         return True
+    if 'sr' in case:
+        return sum(case['sizes']) > 600 * case['sr'] + 1 or len(case['sizes']) > 1
     return sum(case['sizes']) > case['cs'] or len(case['sizes']) > 1
 
 
@@ -227,6 +282,16 @@ def tally(rep, case, impl_res, ans):
         rep.count('passes_over_one_compressed_reader:%s' % ([case['cache']] + case.get('again', [])))
     if 'ok' in impl_res and case['op'] in ('chunk_bounds',):
         rep.count('chunks:%s' % min(len(impl_res['ok']), 6))
+    if case['op'] in ('reader_flat', 'reader_array') and 'ok' in ans:
+        x = 600 * Fraction(case['sr'])
+        kind = 'whole' if x.denominator == 1 else 'tie(.5)' if x.denominator == 2 else 'fractional'
+        if Fraction(600.0 * case['sr']) != x:
+            kind = 'inexact float product, far from a tie'
+        if ans['ok'].get('model') is None:
+            kind = 'rejected by the constructor (<= 1/1200 Hz): real %s' % ('raised' if 'raised' in impl_res else 'accepted')
+        rep.count('chunk_length_600s*rate:' + kind)
+    if case['op'] == 'reader_array':
+        rep.count('reader_array_via:' + case.get('via', 'array'))
     if case['op'] == 'reader_flat':
         rep.count('files:%d' % len(case['sizes']))
         rep.count('header_offset_rows:%s' % ('0' if not case.get('offset') else
@@ -270,25 +335,35 @@ def _indom(c):
     return c.get('cs', 1) >= 1
 
 
-def _cs_ok(cs):
-    return int(round(600.0 * (cs / 600.))) == cs
-
-
-def _with_rate(sr):
-    """a reader case driven by an arbitrary sample rate: the chunk length in samples is the
-    documented 600 s, rounded to the nearest sample (the model takes it as `cs`)"""
-    return dict(sr=sr, cs=int(round(600.0 * sr)))
+def _rate_for(cs):
+    """a float sample rate whose 600 s chunk is about `cs` samples (None when outside the exact-arithmetic domain)"""
+    sr = cs / 600.
+    return sr if _product_ok(600.0, sr) else None
 
 
 FRACTIONAL_RATES = [0.035, 0.0357, 0.0123, 0.0442, 0.00834, 0.0851, 0.17, 0.0699]   # 600*rate is not a whole number
+# dyadic rates m/2^j: 600*rate = 75m/2^(j-3) is computed exactly by the float product.  Exact .5 ties
+# (37.5 -> 38, 112.5 -> 112, 187.5 -> 188, 262.5 -> 262: round half to EVEN) and other fractional parts
+DYADIC_RATES = [1 / 16, 3 / 16, 5 / 16, 7 / 16, 1 / 32, 3 / 32, 1 / 64, 3 / 64, 5 / 64, 1 / 128, 3 / 128, 1 / 256, 3 / 256, 5 / 256,
+                1 / 512, 1 / 1024]
+REJECTED_RATES = [1 / 2048, 1 / 4096, 0.0008]      # int(round(600*rate)) = 0: the constructors assert
 
 
 def gen(tier, rng):
     q = tier == 'quick'
-    for i, sr in enumerate(FRACTIONAL_RATES):
-        for sizes in ([100], [30, 55, 41], [7, 160], [64, 64, 3, 90]):
-            yield dict(p=PID, op='reader_flat', sizes=list(sizes), nch=1 + i % 3, offset=0, **_with_rate(sr))
-        yield dict(p=PID, op='reader_array', sizes=[150 + i], **_with_rate(sr))
+    for i, sr in enumerate(FRACTIONAL_RATES + DYADIC_RATES):
+        if not _product_ok(600.0, sr):
+            continue
+        big = int(600 * sr) + 1
+        lists = [[100], [30, 55, 41], [7, 160], [64, 64, 3, 90], [2 * big + 3, big, max(1, big - 1)]]
+        if q and sr in DYADIC_RATES:
+            lists = [lists[i % 4], lists[4]]
+        for sizes in lists:
+            yield dict(p=PID, op='reader_flat', sizes=list(sizes), nch=1 + i % 3, offset=0, sr=sr)
+        yield dict(p=PID, op='reader_array', sizes=[150 + i], sr=sr, via=['array', 'npy'][i % 2])
+    for sr in REJECTED_RATES:
+        yield dict(p=PID, op='reader_flat', sizes=[5, 3], nch=1, offset=0, sr=sr)
+        yield dict(p=PID, op='reader_array', sizes=[7], sr=sr)
     N, CS = (40, 14) if q else (70, 24)
     # 1. exhaustive chunk_bounds grid (every residue of n mod (cs-ov), odd overlaps)
     for n in range(0, N + 1):
@@ -318,21 +393,28 @@ def gen(tier, rng):
     for k in (1, 2, 3):
         for sizes in itertools.product(range(1, S2 + 1), repeat=k):
             for cs in (1, 2, 3, 5, 7):
-                if _cs_ok(cs):
+                sr = _rate_for(cs)
+                if sr is not None:
                     nch = 1 + (sum(sizes) % 3)
                     kk = sum(sizes) * 7 + cs + k
                     # header offsets: none, less than a row, exactly one row, several rows
-                    yield dict(p=PID, op='reader_flat', sizes=list(sizes), cs=cs, nch=nch,
+                    yield dict(p=PID, op='reader_flat', sizes=list(sizes), sr=sr, nch=nch,
                                offset=[0, 1, 2 * nch, 2 * nch * 3, 4, 0][kk % 6], names=['idx', 'rev', 'nat'][kk % 3])
     for n in range(1, 12):
         for cs in (1, 2, 3, 5, 7, 20):
-            if _cs_ok(cs):
-                yield dict(p=PID, op='reader_array', sizes=[n], cs=cs)
+            sr = _rate_for(cs)
+            if sr is not None:
+                yield dict(p=PID, op='reader_array', sizes=[n], sr=sr, via=['array', 'npy'][(n + cs) % 2])
     # 4. compressed readers: lengths x chunk durations x threads x cache
     for n in ((5, 17, 40) if q else (1, 5, 17, 40, 64, 99)):
-        for cd in ((0.5, 1.0) if q else (0.25, 0.5, 1.0, 2.5)):
+        # chunk length cd*10 samples: 5, 10 / 2.5 (tie -> 2), 7.5 (tie -> 8), 25, 3.5 would need cd = 0.35 (inexact: excluded)
+        for cd in ((0.5, 1.0, 0.25, 0.75) if q else (0.25, 0.5, 0.75, 1.0, 2.5, 0.125 * 3)):
+            if not _product_ok(cd, 10.0):
+                continue
             for bs in (1, 2, 3):
                 for cache in (False, True):
+                    if q and cd in (0.25, 0.75) and (bs + (n % 3) + cache) % 3:
+                        continue            # quick tier: a third of the tie chunk durations
                     yield dict(p=PID, op='reader_cbin', n=n, sr=10.0, cd=cd, bs=bs, cache=cache,
                                again=[[], [True], [False, True], [True, True]][(n + bs + int(cache)) % 4])
     # 5. random larger cases
